@@ -291,6 +291,9 @@ def entry_nodes(rng, rel, kind, tag, link_target=None):
                 {'p': rel + '/a-regular-file', 't': 'f', 'c': '%s first\n' % tag},
                 {'p': rel + '/pipe', 't': 'p', 'm': 0o600},
                 {'p': rel + '/z-last', 't': 'f', 'c': '%s last\n' % tag}]
+    if kind in ('fifo', 'socket'):
+        return [{'p': rel, 't': 'p' if kind == 'fifo' else 's',
+                 'm': rng.choice([0o600, 0o644, 0o666])}]
     if kind.startswith('link'):
         return [{'p': rel, 't': 'l', 'to': link_target or 'nothing-%s' % tag}]
     raise ValueError(kind)
